@@ -27,7 +27,8 @@ ENCODED = ["twisted.protocols.haproxy._wrapper:HAProxyProtocolWrapper.dataReceiv
            "twisted.protocols.haproxy._v2parser:V2Parser.feed", "twisted.protocols.haproxy._v2parser:V2Parser.parse",
            "twisted.protocols.haproxy._v2parser:V2Parser._bytesToIPv4",
            "twisted.protocols.haproxy._v2parser:V2Parser._bytesToIPv6"]
-BOUNDS = {"quick": {"p": 2, "tlv": 3}, "thorough": {"p": 3, "tlv": 5}}
+BOUNDS = {"quick": {"p": 2, "tlv": 3, "allpos": 0, "msplit": 0},
+          "thorough": {"p": 3, "tlv": 5, "allpos": 1, "msplit": 1}}
 B = {}
 BOUNDS_TEXT = ("v1: TCP4 / TCP6 / UNKNOWN (bare and with trailing text) headers, addresses from a menu, ports of "
                "1-2 symbolic digits, payload of <= p symbolic bytes, two deliveries at every split index; one "
@@ -199,7 +200,8 @@ class _RecFactory(_protocol.Factory):
 
 
 class Run:
-    def __init__(self, stream, k):
+    def __init__(self, pieces):
+        first, second = pieces
         wf = L.HAProxyWrappingFactory(_RecFactory())
         w = wf.buildProtocol(None)
         tr = FakeTransport()
@@ -207,11 +209,11 @@ class Run:
         self.tr = tr
         self.rec = w.wrappedProtocol
         self.closed_after_first = False
-        if k > 0:
-            w.dataReceived(b(stream[:k]))
+        if len(first) > 0:
+            w.dataReceived(b(first))
             self.closed_after_first = tr.closed is not None
-        if k < len(stream) and tr.closed is None:
-            w.dataReceived(b(stream[k:]))
+        if len(second) > 0 and tr.closed is None:
+            w.dataReceived(b(second))
         self.closed = tr.closed
         self.peer = _addr(w.getPeer())
         self.host = _addr(w.getHost())
@@ -249,8 +251,11 @@ def _valid_outcome(r, k, hlen, payload, peer, host):
 # ------------------------------------------------------------------------------------------------
 # version 1
 
-_V4 = [("1.2.3.4", "5.6.7.8"), ("255.255.255.255", "0.0.0.0"), ("127.0.0.1", "10.20.30.40")]
-_V6 = [("::1", "::2"), ("2001:db8::ff00:42:8329", "ffff:ffff:ffff:ffff:ffff:ffff:ffff:ffff"), ("::", "1:2:3:4:5:6:7:8")]
+# (source, destination, source port, destination port)
+_V4 = [("1.2.3.4", "5.6.7.8", "10", "443"), ("255.255.255.255", "0.0.0.0", "65535", "0"),
+       ("127.0.0.1", "10.20.30.40", "7", "8080")]
+_V6 = [("::1", "::2", "10", "443"), ("2001:db8::ff00:42:8329", "ffff:ffff:ffff:ffff:ffff:ffff:ffff:ffff", "65535", "0"),
+       ("::", "1:2:3:4:5:6:7:8", "7", "8080")]
 
 
 def _port_ok(p):
@@ -269,37 +274,72 @@ def _port_val(p):
     return v
 
 
-def v1ok(proto: int, ai: int, sp: str, dp: str, junk: str, pay: str, split: int) -> bool:
+def _pieces(hdr, pay, k):
+    """the two deliveries of hdr + pay split at k, built so that a piece made of header bytes only
+    stays a plain (non-symbolic) string when the header is concrete"""
+    n = len(hdr)
+    if k <= n:
+        return hdr[:k], hdr[k:] + pay
+    return hdr + pay[:k - n], pay[k - n:]
+
+
+def v1split(proto: int, ai: int, pay: str, split: int) -> bool:
     """
-    pre: 0 <= proto <= 3 and 0 <= ai <= 2 and _port_ok(sp) and _port_ok(dp) and len(dp) == 2
-    pre: len(junk) <= 2 and len(pay) <= B['p'] and all(ord(c) < 256 for c in junk + pay)
-    pre: "\\r" not in junk and "\\n" not in junk
-    pre: 0 <= split <= 80
+    pre: 0 <= proto <= 2 and 0 <= ai <= 2 and len(pay) == B['p'] and all(ord(c) < 256 for c in pay)
+    pre: 0 <= split <= 100
     post: _
     """
-    pr = _menu(3, proto)
+    pr = _menu(2, proto)
     a = _menu(2, ai)
     if pr == 0:
-        src, dst = _V4[a]
+        src, dst, sp, dp = _V4[a]
         hdr = "PROXY TCP4 " + src + " " + dst + " " + sp + " " + dp + "\r\n"
-        peer, host = ("4", "TCP", src, _port_val(sp)), ("4", "TCP", dst, _port_val(dp))
+        peer, host = ("4", "TCP", src, int(sp)), ("4", "TCP", dst, int(dp))
     elif pr == 1:
-        src, dst = _V6[a]
+        src, dst, sp, dp = _V6[a]
         hdr = "PROXY TCP6 " + src + " " + dst + " " + sp + " " + dp + "\r\n"
-        peer, host = ("6", "TCP", src, _port_val(sp)), ("6", "TCP", dst, _port_val(dp))
-    elif pr == 2:
-        hdr = "PROXY UNKNOWN\r\n"
-        peer, host = REAL_PEER, REAL_HOST
+        peer, host = ("6", "TCP", src, int(sp)), ("6", "TCP", dst, int(dp))
     else:
-        # "the receiver must ignore anything presented before the CRLF is found"
-        hdr = "PROXY UNKNOWN " + junk + "\r\n"
+        hdr = ["PROXY UNKNOWN\r\n", "PROXY UNKNOWN \r\n", "PROXY UNKNOWN TCP4 1.2.3.4 x\r\n"][a]
         peer, host = REAL_PEER, REAL_HOST
-    stream = hdr + pay
-    k = _split_cases(len(stream), split)
-    r = Run(stream, k)
+    k = _split_cases(len(hdr) + len(pay), split)
+    r = Run(_pieces(hdr, pay, k))
     api.obs(r.log())
     cover()
     return _valid_outcome(r, k, len(hdr), pay, peer, host)
+
+
+def v1fields(kind: int, x: str, y: str, split: int) -> bool:
+    """
+    pre: 0 <= kind <= 2 and 1 <= len(x) <= 2 and len(y) == 2 and all(ord(c) < 256 for c in x + y)
+    pre: (kind == 2 and "\\r" not in x + y and "\\n" not in x + y) or (kind <= 1 and _port_ok(x) and _port_ok(y))
+    pre: 0 <= split <= 6
+    post: _
+    """
+    kd = _menu(2, kind)
+    if kd == 0:
+        pre = "PROXY TCP4 1.2.3.4 5.6.7.8 "
+        hdr = pre + x + " " + y + "\r\n"
+        peer, host = ("4", "TCP", "1.2.3.4", _port_val(x)), ("4", "TCP", "5.6.7.8", _port_val(y))
+    elif kd == 1:
+        pre = "PROXY TCP6 ::1 2001:db8::2 "
+        hdr = pre + x + " " + y + "\r\n"
+        peer, host = ("6", "TCP", "::1", _port_val(x)), ("6", "TCP", "2001:db8::2", _port_val(y))
+    else:
+        # "the receiver must ignore anything presented before the CRLF is found"
+        pre = "PROXY UNKNOWN "
+        hdr = pre + x + " " + y + "\r\n"
+        peer, host = REAL_PEER, REAL_HOST
+    pay = "XY"
+    n = len(hdr)
+    # unsplit; shortest first delivery twisted buffers; inside the first symbolic field; between the
+    # fields; between CR and LF; header and payload separately; inside the payload
+    ks = [0, 8, len(pre) + 1, len(pre) + len(x) + 1, n - 1, n, n + 1]
+    k = ks[_menu(6, split)]
+    r = Run(_pieces(hdr, pay, k))
+    api.obs(r.log())
+    cover()
+    return _valid_outcome(r, k, n, pay, peer, host)
 
 
 def _is_ipv4(s):
@@ -453,25 +493,62 @@ def _judge(r, ref):
     return r.success(ref[3], ref[1], ref[2])
 
 
+_SPECIAL = " \r\n.:%0123456789abcdefABCDEFPROXYTUNKW"
+_SPECIAL_ORDS = sorted(set(ord(c) for c in _SPECIAL))
+
+
+def _conc_char(ch):
+    """one path per value for the bytes that mean something in a v1 header; all other values stay
+    one symbolic class"""
+    o = ord(ch)
+    if not lbytes._ord_in(o, _SPECIAL):
+        return ch
+    lo, hi = 0, len(_SPECIAL_ORDS) - 1
+    while lo <= hi:
+        mid = (lo + hi) // 2
+        if o == _SPECIAL_ORDS[mid]:
+            return chr(_SPECIAL_ORDS[mid])
+        if o < _SPECIAL_ORDS[mid]:
+            hi = mid - 1
+        else:
+            lo = mid + 1
+    return ch
+
+
+_V1BASE = ["PROXY TCP4 1.2.3.4 25.6.7.8 10 443\r\n", "PROXY TCP6 ::1 2001:db8::42:8329 9 65535\r\n",
+           "PROXY UNKNOWN\r\n", "PROXY UNKNOWN ab\r\n"]
+# quick tier: one or two positions per field (keyword, separators, address digits / dots / colons, port
+# digits, CR, LF); thorough tier: every position
+_V1POS = [[0, 5, 9, 11, 12, 20, 27, 28, 29, 30, 33, 34, 35], [9, 11, 13, 14, 19, 20, 24, 31, 33, 35, 39, 40],
+          [4, 5, 6, 12, 13, 14], [13, 14, 16, 17]]
+
+
+def _v1positions(bi):
+    if B.get("allpos"):
+        return list(range(len(_V1BASE[bi])))
+    return _V1POS[bi]
+
+
 def v1bad(base: int, pos: int, ch: str, split: int) -> bool:
     """
     pre: 0 <= base <= 3 and 0 <= pos <= 45 and len(ch) == 1 and ord(ch) < 256
-    pre: 0 <= split <= 1
+    pre: 0 <= split <= B['msplit']
     post: _
     """
     bi = _menu(3, base)
     hdr = _V1BASE[bi]
-    p = _split_cases(len(hdr) - 1, pos)
+    plist = _v1positions(bi)
+    p = plist[_menu(len(plist) - 1, pos)]
+    ch = _conc_char(ch)
     if ch == hdr[p]:
         return True
-    stream = hdr[:p] + ch + hdr[p + 1:] + "XY"
-    # delivered at once, or header and payload separately (the first delivery is then never a
-    # strict prefix of the header unless the mutation destroyed the CRLF)
+    mut = hdr[:p] + ch + hdr[p + 1:]
+    # delivered at once, or header and payload separately
     k = 0 if split == 0 else len(hdr)
-    r = Run(stream, k)
+    r = Run(_pieces(mut, "XY", k))
     api.obs(r.log())
     cover()
-    return _judge(r, _ref_v1(stream))
+    return _judge(r, _ref_v1(mut + "XY"))
 
 
 def v1limit(n: int, split: int) -> bool:
@@ -484,7 +561,7 @@ def v1limit(n: int, split: int) -> bool:
     m = 100 + _menu(12, n - 100)
     stream = "PROXY UNKNOWN " + "x" * (m - 14)
     k = 0 if split == 0 else 50
-    r = Run(stream, k)
+    r = Run(_pieces(stream, "", k))
     api.obs(r.log())
     cover()
     if len(r.rec.got) != 0:
@@ -502,70 +579,87 @@ _B4 = [("\x01\x02\x03\x04", "1.2.3.4", "\x05\x06\x07\x08", "5.6.7.8"),
 _B6 = [("\x00" * 15 + "\x01", "0:0:0:0:0:0:0:1", "\x20\x01\x0d\xb8" + "\x00" * 6 + "\xff\x00\x00\x42\x83\x29",
         "2001:db8:0:0:0:ff00:42:8329"),
        ("\xff" * 16, "ffff:ffff:ffff:ffff:ffff:ffff:ffff:ffff", "\x00" * 16, "0:0:0:0:0:0:0:0")]
-_FAMS = [0x11, 0x12, 0x21, 0x22, 0x31, 0x32, 0x00]
+_INET = [0x11, 0x12, 0x21, 0x22]
 
 
 def _len2(n):
     return chr(n // 256) + chr(n % 256)
 
 
-def _unix_splits(total):
-    return [0, 1, 12, 15, 16, 17, 124, 231, 232, 233, total - 1, total]
-
-
-def v2ok(cmd: int, fam: int, ai: int, sp: str, dp: str, ua: str, ub: str, ntlv: int, tlv: str, pay: str,
-         split: int) -> bool:
+def v2inet(cmd: int, fam: int, sp: str, dp: str, ntlv: int, tlv: str, pay: str, split: int) -> bool:
     """
-    pre: 0 <= cmd <= 1 and 0 <= fam <= 6 and 0 <= ai <= 1 and len(sp) == 2 and len(dp) == 2
-    pre: len(ua) <= 2 and len(ub) <= 1 and 0 <= ntlv <= 1 and len(tlv) == B['tlv'] and len(pay) <= B['p']
-    pre: all(ord(c) < 256 for c in sp + dp + ua + ub + tlv + pay)
+    pre: 0 <= cmd <= 1 and 0 <= fam <= 3 and len(sp) == 2 and len(dp) == 2 and 0 <= ntlv <= 1
+    pre: len(tlv) == B['tlv'] and len(pay) == B['p'] and all(ord(c) < 256 for c in sp + dp + tlv + pay)
+    pre: cmd == 1 or (ntlv == 1 and fam % 2 == 0)
     pre: 0 <= split <= 70
     post: _
     """
     c = _menu(1, cmd)
-    f = _FAMS[_menu(6, fam)]
-    a = _menu(1, ai)
+    fi = _menu(3, fam)
+    f = _INET[fi]
     extra = tlv if _menu(1, ntlv) == 1 else ""
-    if f == 0x11 or f == 0x12:
-        sb, st, db, dt = _B4[a]
-        block = sb + db + sp + dp
-        typ = "TCP" if f == 0x11 else "UDP"
-        peer = ("4", typ, st, ord(sp[0]) * 256 + ord(sp[1]))
-        host = ("4", typ, dt, ord(dp[0]) * 256 + ord(dp[1]))
-    elif f == 0x21 or f == 0x22:
-        sb, st, db, dt = _B6[a]
-        block = sb + db + sp + dp
-        typ = "TCP" if f == 0x21 else "UDP"
-        peer = ("6", typ, st, ord(sp[0]) * 256 + ord(sp[1]))
-        host = ("6", typ, dt, ord(dp[0]) * 256 + ord(dp[1]))
-    elif f == 0x31 or f == 0x32:
-        block = ua + "\x00" * (108 - len(ua)) + ub + "\x00" * (108 - len(ub))
-        # the path is the bytes before the NUL padding
-        pa, pb = ua, ub
-        while len(pa) > 0 and pa[len(pa) - 1] == "\x00":
-            pa = pa[:len(pa) - 1]
-        while len(pb) > 0 and pb[len(pb) - 1] == "\x00":
-            pb = pb[:len(pb) - 1]
-        peer, host = ("U", pa), ("U", pb)
+    sb, st, db, dt = (_B4 if fi < 2 else _B6)[fi % 2]
+    kind = "4" if fi < 2 else "6"
+    typ = "TCP" if fi % 2 == 0 else "UDP"
+    body = sb + db + sp + dp + extra
+    if c == 1:
+        peer = (kind, typ, st, ord(sp[0]) * 256 + ord(sp[1]))
+        host = (kind, typ, dt, ord(dp[0]) * 256 + ord(dp[1]))
     else:
-        block = ""
-        peer, host = REAL_PEER, REAL_HOST
-    if c == 0:
         # LOCAL: "the receiver must accept this connection as valid and must use the real connection
         # endpoints and discard the protocol block including the family which is ignored"
         peer, host = REAL_PEER, REAL_HOST
-    body = block + extra
     hdr = SIG + chr(0x20 + c) + chr(f) + _len2(len(body)) + body
-    stream = hdr + pay
-    if f == 0x31 or f == 0x32:
-        ks = _unix_splits(len(stream))
-        k = ks[_menu(len(ks) - 1, split)]
-    else:
-        k = _split_cases(len(stream), split)
-    r = Run(stream, k)
+    k = _split_cases(len(hdr) + len(pay), split)
+    r = Run(_pieces(hdr, pay, k))
     api.obs(r.log())
     cover()
     return _valid_outcome(r, k, len(hdr), pay, peer, host)
+
+
+def _strip_nul(p):
+    while len(p) > 0 and p[len(p) - 1] == "\x00":
+        p = p[:len(p) - 1]
+    return p
+
+
+def v2unix(dgram: int, ua: str, ub: str, ntlv: int, tlv: str, pay: str, split: int) -> bool:
+    """
+    pre: 0 <= dgram <= 1 and len(ua) == 2 and len(ub) == 1 and 0 <= ntlv <= 1
+    pre: len(tlv) == B['tlv'] and len(pay) == B['p'] and all(ord(c) < 256 for c in ua + ub + tlv + pay)
+    pre: 0 <= split <= 11
+    post: _
+    """
+    f = 0x31 + _menu(1, dgram)
+    extra = tlv if _menu(1, ntlv) == 1 else ""
+    body = ua + "\x00" * (108 - len(ua)) + ub + "\x00" * (108 - len(ub)) + extra
+    # the path is what precedes the NUL padding
+    peer, host = ("U", _strip_nul(ua)), ("U", _strip_nul(ub))
+    hdr = SIG + "\x21" + chr(f) + _len2(len(body)) + body
+    n = len(hdr)
+    ks = [0, 1, 15, 16, 17, 18, 124, 125, n - 1, n, n + 1, n + len(pay)]
+    k = ks[_menu(11, split)]
+    r = Run(_pieces(hdr, pay, k))
+    api.obs(r.log())
+    cover()
+    return _valid_outcome(r, k, n, pay, peer, host)
+
+
+def v2unspec(cmd: int, ntlv: int, tlv: str, pay: str, split: int) -> bool:
+    """
+    pre: 0 <= cmd <= 1 and 0 <= ntlv <= 1
+    pre: len(tlv) == B['tlv'] and len(pay) == B['p'] and all(ord(c) < 256 for c in tlv + pay)
+    pre: 0 <= split <= 30
+    post: _
+    """
+    c = _menu(1, cmd)
+    extra = tlv if _menu(1, ntlv) == 1 else ""
+    hdr = SIG + chr(0x20 + c) + "\x00" + _len2(len(extra)) + extra
+    k = _split_cases(len(hdr) + len(pay), split)
+    r = Run(_pieces(hdr, pay, k))
+    api.obs(r.log())
+    cover()
+    return _valid_outcome(r, k, len(hdr), pay, REAL_PEER, REAL_HOST)
 
 
 def _ref_v2(stream, peer, host):
@@ -618,46 +712,61 @@ def v2bad(pos: int, ch: str, split: int) -> bool:
             if ch == chr(v):
                 ch = chr(v)
                 break
-    stream = hdr[:p] + ch + hdr[p + 1:] + "XYZ"
+    mut = hdr[:p] + ch + hdr[p + 1:]
     k = 0 if split == 0 else 16
-    r = Run(stream, k)
+    r = Run(_pieces(mut[:16], mut[16:] + "XYZ", k))
     api.obs(r.log())
     cover()
-    fp = ord(stream[13])
-    typ = "UDP" if fp % 16 == 2 else "TCP"
-    ref = _ref_v2(stream, ("4", typ, st, 80), ("4", typ, dt, 443))
-    return _judge(r, ref)
+    stream = mut + "XYZ"
+    typ = "UDP" if ord(stream[13]) % 16 == 2 else "TCP"
+    return _judge(r, _ref_v2(stream, ("4", typ, st, 80), ("4", typ, dt, 443)))
+
+
+def _v1bad_shards(tier):
+    out = []
+    for bi in range(4):
+        n = len(_V1BASE[bi]) if BOUNDS[tier].get("allpos") else len(_V1POS[bi])
+        step = 7 if BOUNDS[tier].get("allpos") else 5
+        for s in range(0, BOUNDS[tier]["msplit"] + 1):
+            lo = 0
+            while lo < n:
+                hi = min(n, lo + step) - 1
+                out.append(("base == %d" % bi, "split == %d" % s, "%d <= pos <= %d" % (lo, hi)))
+                lo = hi + 1
+    return out
 
 
 HARNESSES = [
-    H(v1ok, shards=[("proto == 0", "len(sp) == 1"), ("proto == 0", "len(sp) == 2"),
-                    ("proto == 1", "len(sp) == 1"), ("proto == 1", "len(sp) == 2"),
-                    ("proto >= 2", "len(sp) == 1")],
+    H(v1split, shards=[("proto == 0",), ("proto == 1", "ai == 0"), ("proto == 1", "ai == 1"), ("proto == 1", "ai == 2"),
+                       ("proto == 2",)],
       timeout={"quick": 100, "thorough": 900}),
-    H(v1bad, shards=[("base == %d" % i, "split == %d" % s) for i in range(4) for s in (0, 1)],
+    H(v1fields, shards=[("kind == %d" % kd, "len(x) == %d" % n) for kd in range(3) for n in (1, 2)],
       timeout={"quick": 100, "thorough": 900}),
+    H(v1bad, shards=_v1bad_shards, timeout={"quick": 100, "thorough": 900}),
     H(v1limit, timeout={"quick": 60, "thorough": 300}),
-    H(v2ok, shards=[("cmd == 1", "fam <= 1"), ("cmd == 1", "2 <= fam <= 3"), ("cmd == 1", "4 <= fam <= 5"),
-                    ("cmd == 1", "fam == 6"), ("cmd == 0", "fam <= 1"), ("cmd == 0", "fam >= 2", "ai == 0")],
+    H(v2inet, shards=[("cmd == 1", "fam == %d" % f) for f in range(4)] + [("cmd == 0",)],
       timeout={"quick": 100, "thorough": 900}),
+    H(v2unix, shards=[("dgram == 0",), ("dgram == 1",)], timeout={"quick": 100, "thorough": 900}),
+    H(v2unspec, timeout={"quick": 100, "thorough": 900}),
     H(v2bad, shards=[("pos <= 11",), ("pos == 12",), ("pos == 13",), ("pos >= 14",)],
       timeout={"quick": 100, "thorough": 900}),
 ]
 
 # headers from twisted/protocols/haproxy/test/test_v1parser.py, test_v2parser.py, test_wrapper.py
 VECTORS = {
-    "v1ok": [(0, 0, "8", "80", "", "hi", 0), (0, 2, "99", "10", "", "x", 8), (1, 0, "8", "80", "", "hi", 20),
-             (1, 1, "65", "43", "", "", 3), (2, 0, "1", "10", "", "ab", 15), (3, 0, "1", "10", "zz", "ab", 9),
-             (0, 1, "1", "10", "", "ab", 40)],
-    "v1bad": [(0, 0, "X", 0), (0, 6, "\x00", 1), (0, 17, "x", 0), (0, 29, "-", 0), (0, 34, "\n", 1), (1, 11, "g", 0),
-              (1, 12, "%", 0), (2, 13, " ", 0), (3, 14, "\r", 1), (0, 11, "9", 0), (0, 27, "0", 0), (1, 38, "6", 0),
-              (0, 30, " ", 0), (2, 5, "\t", 0)],
+    "v1split": [(0, 0, "hi", 0), (0, 1, "\r\n", 8), (0, 2, "hi", 33), (1, 0, "hi", 20), (1, 1, "ab", 3), (1, 2, "ab", 50),
+                (2, 0, "ab", 15), (2, 1, "ab", 9), (2, 2, "ab", 7), (0, 0, "hi", 35), (0, 0, "hi", 36)],
+    "v1fields": [(0, "8", "80", 0), (0, "99", "10", 2), (1, "8", "80", 3), (1, "65", "43", 4), (2, "zz", "\x00\xff", 5),
+                 (2, " ", "  ", 1), (0, "1", "10", 6)],
+    "v1bad": [(0, 0, "X", 0), (0, 1, "\x00", 0), (0, 3, "x", 0), (0, 8, "-", 0), (0, 11, "\n", 0), (1, 1, "g", 0),
+              (1, 1, "%", 0), (2, 4, " ", 0), (3, 2, "\r", 0), (0, 3, "9", 0), (0, 7, "0", 0), (1, 10, "6", 0),
+              (0, 9, " ", 0), (2, 1, "\t", 0), (0, 2, "6", 0), (1, 0, "4", 0), (0, 5, "6", 0), (0, 12, "\r", 0)],
     "v1limit": [(100, 0), (107, 1), (108, 0), (112, 1)],
-    "v2ok": [(1, 0, 0, "\x00P", "\x01\xbb", "", "", 0, "abc", "hi", 0), (1, 1, 1, "\xff\xff", "\x00\x00", "", "", 1, "\x03\x00\x01", "h", 16),
-             (1, 2, 0, "\x1f\x90", "\x00\x16", "", "", 1, "abc", "hi", 30), (1, 3, 1, "ab", "cd", "", "", 0, "abc", "", 52),
-             (1, 4, 0, "ab", "cd", "/a", "b", 0, "abc", "hi", 5), (1, 5, 0, "ab", "cd", "", "", 1, "abc", "hi", 8),
-             (1, 6, 0, "ab", "cd", "", "", 0, "abc", "hi", 17), (0, 0, 0, "ab", "cd", "", "", 1, "abc", "hi", 3),
-             (0, 6, 0, "ab", "cd", "", "", 0, "abc", "hi", 16), (1, 0, 0, "ab", "cd", "", "", 0, "abc", "hi", 7)],
+    "v2inet": [(1, 0, "\x00P", "\x01\xbb", 0, "abc", "hi", 0), (1, 1, "\xff\xff", "\x00\x00", 1, "\x03\x00\x01", "hi", 16),
+               (1, 2, "\x1f\x90", "\x00\x16", 1, "abc", "hi", 30), (1, 3, "ab", "cd", 0, "abc", "hi", 52),
+               (0, 0, "ab", "cd", 1, "abc", "hi", 3), (0, 2, "ab", "cd", 1, "abc", "hi", 16), (1, 0, "ab", "cd", 0, "abc", "hi", 7)],
+    "v2unix": [(0, "/a", "b", 0, "abc", "hi", 4), (1, "\x00\x00", "\x00", 1, "abc", "hi", 0), (0, "x\x00", "y", 1, "abc", "hi", 9)],
+    "v2unspec": [(1, 0, "abc", "hi", 17), (0, 1, "abc", "hi", 16), (1, 1, "abc", "hi", 5)],
     "v2bad": [(0, "X", 0), (11, "\r", 1), (12, "\x20", 0), (12, "\x22", 0), (12, "\x31", 1), (13, "\x12", 0),
               (13, "\x21", 0), (13, "\x00", 0), (13, "\x10", 0), (13, "\x41", 0), (13, "\x13", 1), (15, "\x0b", 0),
               (15, "\x0d", 0), (15, "\x10", 1), (14, "\x01", 0), (15, "\x00", 0)],
